@@ -391,7 +391,7 @@ RULE_ADDENDA = {
            "model forgets its session on a CONNECT which carries the flag. Behind the recording Persistence double sits, per case, its own map (5 in 8), the library's in-memory map (2 in 8) or mqtt.FileSystem on a scratch directory (1 in 8).",
     'C04': "Also: restart optionally after an orderly end (Close from another goroutine while the application holds the last "
            "return, then one more ReadSlices). Ownership is taken as the property states it: the application invoked ReadSlices "
-           "again after the return (a failing marker Save in that invocation excepted, as documented). The application skips every BigMessage in half of the histories (the next ReadSlices discards the payload); bigSkippedThenLoss: a message beyond the read buffer whose tail is cut by a read fault (reset, EOF, stall) while the skipped payload is discarded. Inbound identifiers may alias one in flight modulo 0x4000. Behind the recording Persistence double sits, per case, its own map (5 in 8), the library's in-memory map (2 in 8) or mqtt.FileSystem on a scratch directory (1 in 8).",
+           "again after the return (a failing marker Save in that invocation excepted, as documented). The application skips every BigMessage in half of the histories (the next ReadSlices discards the payload); bigSkippedThenLoss: a message beyond the read buffer whose tail is cut by a read fault (reset, EOF, stall) while the skipped payload is discarded. Inbound identifiers may alias one in flight modulo 0x4000. Behind the recording Persistence double sits, per case, its own map (5 in 8), the library's in-memory map (2 in 8) or mqtt.FileSystem on a scratch directory (1 in 8). The inbound engine (C04, C06, C07) requests a clean session at the first connect in 1 of 3 histories (reconnects continue the session; a restart adopts without the flag).",
     'C05': "Also: 1 in 4 histories start from a session positioned at the identifier wrap; optional restart at the end "
            "(adoption, continuation, resend order and DUP of the next process). Behind the recording Persistence double sits, per case, its own map (5 in 8), the library's in-memory map (2 in 8) or mqtt.FileSystem on a scratch directory (1 in 8). One case in five runs on a session made the way VolatileSession makes it (the library's map, no checksum layer). brokerSend (inbound traffic). CleanSession is requested in 1 of 3 histories (never by the process which adopts the session at the end).",
     'C06': "Also (full-size read buffer only): 1 in 400 messages has a remaining length of 2,097,151, 2,097,152 or 2,097,153 bytes (three-byte to four-byte length). In 1 of 4 cases an earlier connection came first, which delivered 1-3 packets with a body and then failed inside ReadSlices (nothing of it may leak into the next connection).",
@@ -404,7 +404,7 @@ RULE_ADDENDA = {
            "the cases; oracle over the bytes each connection received (strict reference decoder, payload equality, success only "
            "when complete; time budgets are inconclusive, never violations). Non-trivial there: a reconnect, a connection which "
            "ended inside a packet, or a request which failed. cancelledWhileWaiting: 1-3 Publish calls with a quit channel wait for the connection and are cancelled, then 2-4 publishes at once. One ending in four: Disconnect (quit fired, firing later, or nil) while a writer is parked inside a packet. Behind the recording Persistence double sits, per case, its own map (5 in 8), the library's in-memory map (2 in 8) or mqtt.FileSystem on a scratch directory (1 in 8). One case in five runs on a session made the way VolatileSession makes it (the library's map, no checksum layer). wanderingPingresp (an unsolicited PINGRESP, possibly overtaking a PINGREQ in transit); a parked Write may fail once released; no more successful Pings than complete PINGREQ packets.",
-    'C09': "Also: the over-the-limit payload class is drawn in 1 of 8 quick-tier cases. The over-the-limit string class also comes as 21,846 three-byte characters (over 65,535 bytes, under 65,535 characters). TestC09MaxSize: the six publish methods x topic lengths {1,2,7,100,65535} x remaining length 268,435,455 -7..+3 on an offline client with a fired quit (nothing of the 256 MiB is read): up to the limit never IsDeny, beyond it IsDeny. Strings with U+0000 behind a multi-byte character.",
+    'C09': "Also: the over-the-limit payload class is drawn in 1 of 8 quick-tier cases. The over-the-limit string class also comes as 21,846 three-byte characters (over 65,535 bytes, under 65,535 characters). TestC09MaxSize: the six publish methods x topic lengths {1,2,7,100,65535} x remaining length 268,435,455 -7..+3 on an offline client with a fired quit (nothing of the 256 MiB is read): up to the limit never IsDeny, beyond it IsDeny. Strings with U+0000 behind a multi-byte character. An adoption with an illegal Config finds a junk record in the store (1 in 2): refused without touching it.",
     'C10': "Also: reader states skipping-dup-big (discarding the payload of a retransmitted exactly-once message larger than the "
            "read buffer, tail outstanding) and holding-big-tail-outstanding; failure 'silence' (nothing but PauseTimeout); in state handshake the broker may stay silent for good. Extra "
            "invariant: once ReadSlices reported an error while reading from a connection, no later ReadSlices reads from it. Reader state connack-arrives-under-slow-save (a persisted publish is inside a parked Persistence.Save when the CONNACK is released). mid-packet-stall prefixes also end inside the remaining-length bytes. Behind the recording Persistence double sits, per case, its own map (5 in 8), the library's in-memory map (2 in 8) or mqtt.FileSystem on a scratch directory (1 in 8). One case in five runs on a session made the way VolatileSession makes it (the library's map, no checksum layer). Failed connects include Dialer errors which wrap context.Canceled / context.DeadlineExceeded. Failure read-fails-close-is-slow: the peer half-closes, the read routine's Close of the connection is held up, a writer which held the lock completes and a new Subscribe goes out meanwhile: it must be released by that loss too. Failed attempts include a Dialer which returns the bare or wrapped context.Canceled while the client is open: that is a failed attempt like any other (redial follows), not the end of the client. One case in four runs without minimum wait (ReconnectWaitMin negative): ReadBackoff channels must close within ReconnectWaitMax + 600 ms (measured twice before it counts).",
@@ -413,16 +413,16 @@ RULE_ADDENDA = {
            "ones follow in forward, reverse or interleaved order. Also: connectFails (connection lost; the next attempt parks in the Dialer or in the handshake; 1-3 requests are "
            "issued meanwhile; the attempt fails; they must return without any further ReadSlices). 1 in 8 requests carries one filter sized such that the remaining length is 126-130. Behind the recording Persistence double sits, per case, its own map (5 in 8), the library's in-memory map (2 in 8) or mqtt.FileSystem on a scratch directory (1 in 8). One case in five runs on a session made the way VolatileSession makes it (the library's map, no checksum layer). malformedPingresp (PINGRESP with a remaining length of 1 or 2 while a Ping waits); a Ping counts as answered only by the exact bytes d0 00.",
     'C12': "Also: in state dialing the Dialer may ignore the end of its context and hand out a connection after Close (it must "
-           "be closed; Close itself need not beat such a Dialer). State next-write-fails (the next Write on the connection times out or resets: DISCONNECT itself, if no request comes first). Behind the recording Persistence double sits, per case, its own map (5 in 8), the library's in-memory map (2 in 8) or mqtt.FileSystem on a scratch directory (1 in 8). One case in five runs on a session made the way VolatileSession makes it (the library's map, no checksum layer). Every error ReadSlices returns before ErrClosed must get a non-nil ReadBackoff. State connecting-behind-a-slow-save: a publisher sits inside a parked Persistence.Save (holds its sequence lock), the connection is lost, the read routine reconnects up to the wait for that lock, the shutdown arrives, the Save completes afterwards.",
+           "be closed; Close itself need not beat such a Dialer). State next-write-fails (the next Write on the connection times out or resets: DISCONNECT itself, if no request comes first). Behind the recording Persistence double sits, per case, its own map (5 in 8), the library's in-memory map (2 in 8) or mqtt.FileSystem on a scratch directory (1 in 8). One case in five runs on a session made the way VolatileSession makes it (the library's map, no checksum layer). Every error ReadSlices returns before ErrClosed must get a non-nil ReadBackoff. State connecting-behind-a-slow-save: a publisher sits inside a parked Persistence.Save (holds its sequence lock), the connection is lost, the read routine reconnects up to the wait for that lock, the shutdown arrives, the Save completes afterwards. State connect-write-parked: the peer stops taking bytes inside the CONNECT. After the shutdown every connection starts with (a prefix of) the CONNECT of the Config and carries whole packets only.",
     'C13': "Also: after a violation and the redial a PUBLISH is sent on the fresh connection and must come out as sent (clean "
-           "slate: no skip count, big-message marker or partial packet carried over). Setup may include 0-2 publishes per level refused by a failing Save; announced topic lengths up to 0xffff. TestC13AckBeforeWritten: 0-2 pending transfers, the next publish parks 0-12 bytes into its Write, the broker acknowledges everything including the packet in transit, the Write then ends by reset, timeout or completion: no panic, the call returns, the session goes on. Hostile packets include acknowledgements whose identifier is plausible (the one next in line among them) followed by 1-2 surplus bytes.",
+           "slate: no skip count, big-message marker or partial packet carried over). Setup may include 0-2 publishes per level refused by a failing Save; announced topic lengths up to 0xffff. TestC13AckBeforeWritten: 0-2 pending transfers, the next publish parks 0-12 bytes into its Write, the broker acknowledges everything including the packet in transit, the Write then ends by reset, timeout or completion: no panic, the call returns, the session goes on. Hostile packets include acknowledgements whose identifier is plausible (the one next in line among them) followed by 1-2 surplus bytes. One stream in six is cut 1-200 bytes short of its end (silence inside the last packet, e.g. in the payload of a message beyond the read buffer which the application does not read).",
     'C14': "Simulated half, state online without fault: in 1 of 3 cases an earlier persisted publish of the level was refused (its Save failed); the publish which follows must be accepted, report no submission error on its exchange and be on the wire. In 1 of 4 online cases the connection's Close reports an error (as a TLS close_notify to a peer which is gone).",
     'C15': "Also (stored-values half): the Persistence double reads the buffers when a slow Save gets to them, not on entry; "
-           "slowSave overlaps Saves of the read routine and of both publish levels. A single-byte alteration of an inbound marker must be reported by AdoptSession too; the parked publish of slowSave may be retained, and 0-2 QoS 0 publishes compose their packets meanwhile. In 1 of 4 adoptions of the damaged store Persistence.Delete fails once (no panic, still reported, never used). Behind the recording Persistence double sits, per case, its own map (5 in 8), the library's in-memory map (2 in 8) or mqtt.FileSystem on a scratch directory (1 in 8). After the adoption of the altered store the first ReadSlices must neither panic nor fail (client-identifier record excepted: F17). TestC15MarkerDamagedLive: a reception marker is altered in one byte or cut while the client runs, then the broker retransmits the PUBLISH: ReadSlices must report an error, not deliver again in silence.",
+           "slowSave overlaps Saves of the read routine and of both publish levels. A single-byte alteration of an inbound marker must be reported by AdoptSession too; the parked publish of slowSave may be retained, and 0-2 QoS 0 publishes compose their packets meanwhile. In 1 of 4 adoptions of the damaged store Persistence.Delete fails once (no panic, still reported, never used). Behind the recording Persistence double sits, per case, its own map (5 in 8), the library's in-memory map (2 in 8) or mqtt.FileSystem on a scratch directory (1 in 8). After the adoption of the altered store the first ReadSlices must neither panic nor fail (client-identifier record excepted: F17). TestC15MarkerDamagedLive: a reception marker is altered in one byte or cut while the client runs, then the broker retransmits the PUBLISH: ReadSlices must report an error, not deliver again in silence. The adoption at the end may use a Config with CleanSession (1 in 3).",
     'C16': "Also: AtLeastOnceMax/ExactlyOnceMax from {16,16,2,3,4}; 1 in 8 adoptions with Persistence.Delete failing once "
            "(only 'no panic' is judged then); 'second life' (the adopted client fills its queues, the process stops, the next "
            "AdoptSession without new damage must work, connect and complete). Before the second stop 0-4 PUBRECs are released; every transfer the adopted client itself accepted and had pending at its stop must be on the first connection of the next process. Behind the recording Persistence double sits, per case, its own map (5 in 8), the library's in-memory map (2 in 8) or mqtt.FileSystem on a scratch directory (1 in 8). In 1 of 4 adoptions the store is mqtt.FileSystem with 1-3 stray directory entries next to the records: an upper-case spelling of a record's name, a sub-directory named like a key, a spool leftover, foreign files, names of 4 and 6 hexadecimals. Damage kind 'hollow': a record whose bytes are well formed (sequence number plus matching checksum) yet hold no packet. One adoption in five is preceded by a misconfigured one (limits of 1) whose warnings count. Stray directories named like a record which a publish of the history will store are excluded by construction (open finding F31, probe TestC16KnownF31). The Delete which fails during adoption is the first to fourth; afterwards every outbound record still stored is either resumed by the client or the one whose Delete failed. Stray entries include symbolic links (to a directory, dangling) named like keys. AdoptSession runs under the hang oracle (no Persistence operation for 4 s).",
-    'C17': "Also: resendFails (connection lost; the next one resets 0-80 bytes into the retransmission; the one after is healthy). ackDeleteFails (the Delete asked for by an acknowledgement fails; reconnect). TestC17Slots/TestC11CounterLap: in 1 of 3 cases an outage first, with 1032 requests refused while down. twoForTheLastSlot (one slot left, the reconnect parked inside its retransmission, two publishes arrive: exactly one ErrMax, no blocking). Behind the recording Persistence double sits, per case, its own map (5 in 8), the library's in-memory map (2 in 8) or mqtt.FileSystem on a scratch directory (1 in 8). Slots case: optionally a lone request abandoned after submission, then its successor (must not get the identifier whose answer is still owed).",
+    'C17': "Also: resendFails (connection lost; the next one resets 0-80 bytes into the retransmission; the one after is healthy). ackDeleteFails (the Delete asked for by an acknowledgement fails; reconnect). TestC17Slots/TestC11CounterLap: in 1 of 3 cases an outage first, with 1032 requests refused while down. twoForTheLastSlot (one slot left, the reconnect parked inside its retransmission, two publishes arrive: exactly one ErrMax, no blocking). Behind the recording Persistence double sits, per case, its own map (5 in 8), the library's in-memory map (2 in 8) or mqtt.FileSystem on a scratch directory (1 in 8). Slots case: optionally a lone request abandoned after submission, then its successor (must not get the identifier whose answer is still owed). Slots engine prelude (1 in 3): a Subscribe which took its slot waits for the write lock (a publisher sits inside Write) when the connection is lost; it goes out on the next connection; the request which follows must get another identifier.",
     'C18': "Also: in a held handshake a persisted publish whose Save is still running when the CONNACK arrives. Behind the recording Persistence double sits, per case, its own map (5 in 8), the library's in-memory map (2 in 8) or mqtt.FileSystem on a scratch directory (1 in 8). An attempt whose CONNECT gets through (also with one tolerated expiry after progress) and whose CONNACK accepts at once must establish the connection. Raw CONNACK variants include odd reserved flag bytes (0x03, 0x81, 0xff) with return code 0.",
 }
 for _k, _v in RULE_ADDENDA.items():
